@@ -49,6 +49,7 @@ func LoadGraph(path string) (*Graph, error) {
 	defer f.Close() //nolint:errcheck
 	g := &Graph{Init: -1}
 	ids := map[string]int{}
+	declared := map[int]bool{}
 	node := func(v any) int {
 		k := canon(v)
 		id, ok := ids[k]
@@ -83,6 +84,7 @@ func LoadGraph(path string) (*Graph, error) {
 			O []any          `json:"o"`
 			E []any          `json:"ev"`
 			T any            `json:"t"`
+			I bool           `json:"i"` // the source is an initial state (specs whose initial states can be re-entered)
 		}
 		if err := json.Unmarshal([]byte(un[5:]), &raw); err != nil {
 			return nil, fmt.Errorf("edge: %w", err)
@@ -91,6 +93,9 @@ func LoadGraph(path string) (*Graph, error) {
 		if g.Init < 0 {
 			g.Init = e.S // TLC's breadth-first search starts at Init
 		}
+		if raw.I {
+			declared[e.S] = true
+		}
 		e.Cls = edgeClass(e, e.S != e.T)
 		g.Edges = append(g.Edges, e)
 	}
@@ -98,6 +103,15 @@ func LoadGraph(path string) (*Graph, error) {
 		return nil, err
 	}
 	g.Nodes = len(ids)
+	if len(declared) > 0 {
+		g.Inits = []int{g.Init}
+		for n := range declared {
+			if n != g.Init {
+				g.Inits = append(g.Inits, n)
+			}
+		}
+		sort.Ints(g.Inits[1:])
+	}
 	g.Out = make([][]int, g.Nodes)
 	for i, e := range g.Edges {
 		g.Out[e.S] = append(g.Out[e.S], i)
